@@ -60,12 +60,12 @@ CHECKS = [
     },
     {
         "id": "C06",
-        "technique": "static analysis: structural rules over pkt_header/_pkt_idx (discriminator completeness), table agreement of the verb maps, guard dominance over the FSM's packet handlers; boolean-structure-aware guard implication; column-coverage rule between Frame._ctx and _pkt_idx",
+        "technique": "static analysis: structural rules over pkt_header/_pkt_idx (discriminator completeness), table agreement of the verb maps, guard dominance over the FSM's packet handlers; boolean-structure-aware guard implication; column-coverage rule between Frame._ctx and _pkt_idx; string-template abstraction of header builders; decision tables of both FSM receive functions",
         "text": "Necessary conditions: every header joins code + verb + device id and appends the payload context whenever it is a string; "
         "the RQ->RP / W->I reply map agrees between frame.pkt_header and the dispatcher; every FSM transition on a received packet is "
         "dominated by whole-header ==/!= tests against the sent command (no prefix/substring matching) with the single enumerated 0418 "
         "null-entry exception, and the gateway-id placeholder is substituted on both sides. Does not decide that real replies carry the "
-        "same context bytes, nor near-miss rejection over all values. Guards are only credited when their truth follows from the edge taken (conjuncts on a true edge, disjuncts on a false edge). Also decides: for every code-specific branch of Frame._ctx, the payload columns the context is built from cover the columns _pkt_idx reads for that code. R5: the complete decision tables of WantRply.pkt_rcvd and WantEcho.pkt_rcvd - a packet is accepted as the reply exactly when its header equals the reply header (or it is the enumerated 0418 null-entry) and, before the echo, it is addressed to the command's sender (literally or via the placeholder/real gateway id): nothing else is accepted and these always are.",
+        "same context bytes, nor near-miss rejection over all values. Guards are only credited when their truth follows from the edge taken (conjuncts on a true edge, disjuncts on a false edge). Also decides: for every code-specific branch of Frame._ctx, the payload columns the context is built from cover the columns _pkt_idx reads for that code. R5: the complete decision tables of WantRply.pkt_rcvd and WantEcho.pkt_rcvd - a packet is accepted as the reply exactly when its header equals the reply header (or it is the enumerated 0418 null-entry) and, before the echo, it is addressed to the command's sender (literally or via the placeholder/real gateway id): nothing else is accepted and these always are. Session 4: headers are recognised by the text they build (f-string, join, +, format alike; in pkt_header or a helper it calls): every construction starting with the code has exactly code|verb|device id; reply headers are built only where verb not in (I, RP) and src != dst is known; every row of the decision tables of WantEcho/WantRply.pkt_rcvd that makes a transition has a whole-header equality true (or is the enumerated 0418 null-entry row).",
         "note": BASE_NOTE,
     },
     {
@@ -80,12 +80,12 @@ CHECKS = [
     },
     {
         "id": "C08",
-        "technique": "static analysis: who-may-call + guard dominance, reaching definitions, interval analysis of the back-off exponent, queue-key typing; finite-domain abstract evaluation of the exponent's net effect around the wait",
+        "technique": "static analysis: who-may-call + guard dominance, reaching definitions, interval analysis of the back-off exponent, queue-key typing; finite-domain abstract evaluation of the exponent's net effect around the wait; interprocedural value-flow rule for the caller's QosParams",
         "text": "Necessary conditions: retransmission only through one function, called from the dequeue and from effect_state under timed_out; "
         "timed_out requested at one site on the true edge of tx_count < tx_limit; tx_limit = min(qos.max_retries, min(arg, 3)) + 1; the "
         "back-off exponent provably stays in 0..3 and both waits are timeout * 2**exponent; one dequeue site, reached only with no future "
         "pending, skipping resolved entries; queue entries order by priority then a unique counter before any unorderable element. "
-        "Does not decide 'exactly 1+min(r,3) transmissions', FIFO or doubling as observed in time. Also decides, by evaluating the coroutine's own updates of the exponent over its 0..3 domain: an unanswered wait leaves it at min(3, m+1) (the next wait is doubled, capped at 8x) and an answered one never raises it.",
+        "Does not decide 'exactly 1+min(r,3) transmissions', FIFO or doubling as observed in time. Also decides, by evaluating the coroutine's own updates of the exponent over its 0..3 domain: an unanswered wait leaves it at min(3, m+1) (the next wait is doubled, capped at 8x) and an answered one never raises it. Also decides: on every hop from the public send APIs down to ProtocolContext.send_cmd the QosParams handed on is the one received (or forwarded **kwargs), or a rebuild whose max_retries is carried over - never a fresh object built from the caller's other values.",
         "note": BASE_NOTE,
     },
     {
@@ -132,22 +132,22 @@ CHECKS = [
     },
     {
         "id": "C04",
-        "technique": "static analysis: numeric-idiom lint typed by mypy (truncating float scaling), sentinel-table inverse, bit-layout agreement by constant folding, sibling agreement, range-guard dominance; flow-sensitive column tracking of the date-time encoder's string",
+        "technique": "static analysis: numeric-idiom lint typed by mypy (truncating float scaling), sentinel-table inverse, bit-layout agreement by constant folding, sibling agreement, range-guard dominance; flow-sensitive column tracking of the date-time encoder's string; structural mask/shift extraction with per-field guard bounds; decoder-resolution rule",
         "text": "Decides the structural clauses of the codec property: encoders scale with a rounding idiom (int(float*k) must mis-encode some grid "
         "points - IEEE-754), sentinel tables of each encoder/decoder pair are mutual inverses, packed timestamp / datetime / device-id bit and "
         "column layouts agree between encoder and decoder, the duplicated device-id codecs agree, and every fixed-width hex field is bounded by "
         "a raising guard, a mask or construction (no silent wrap). Exactness on the whole grid (65,536 words, 2^24 ids) is about values and is "
-        "not decided. Also decides: the DST flag (| 0x80) is or-ed into the seconds octet on every path through hex_from_dtm (the columns already cut off the string are tracked per program point) and the decoder masks that octet with 0b1111111.",
+        "not decided. Also decides: the DST flag (| 0x80) is or-ed into the seconds octet on every path through hex_from_dtm (the columns already cut off the string are tracked per program point) and the decoder masks that octet with 0b1111111. Session 4: the packed device id's fields are read off the expressions (constant-folded masks/shifts, complementary over 24 bits) and each field must be bounded to its own width by a raising guard; a decoder-only sentinel that lies inside the encoder's numeric image is reported (the wire's second N/A word 31FF is the one frozen exception); flag lists must be length- and element-guarded; a paired decoder's raw/K quotient must reach its return without a coarser round()/int()/floor division.",
         "note": BASE_NOTE,
     },
     {
         "id": "C17",
-        "technique": "static analysis: struct-format agreement computed from the format strings, numeric-idiom rule, constant/regex-bound agreement and shape inclusion for the fragment write; path rule on the reassembly function",
+        "technique": "static analysis: struct-format agreement computed from the format strings, numeric-idiom rule, constant/regex-bound agreement and shape inclusion for the fragment write; path rule on the reassembly function; guard-knowledge rule (facts at a call site, incl. short-circuit operands) and who-may-call for the decoder; memoisation rule",
         "text": "Decides that pack/unpack agree on byte order, record size (= the decode stride) and field offsets; that setpoints are scaled with a "
         "rounding idiom and decoded by /100, time-of-day and zone-index codecs are inverse shapes; that a fragment (82 hex digits) equals the "
         "0404 regex bound and header+fragment fits the 48-byte frame payload, and the fragment-write payload shape is in the W|0404 regex "
         "language; and that the validator's time/setpoint grids fit the codec's. Identity for all schedules and reassembly under permuted or "
-        "repeated fragments are value/history properties and are not decided. Also decides: in _update_payload_set every path after the fragment-count test stores the received fragment in its slot or restarts the set with it (a received fragment is never discarded in favour of an older copy).",
+        "repeated fragments are value/history properties and are not decided. Also decides: in _update_payload_set every path after the fragment-count test stores the received fragment in its slot or restarts the set with it (a received fragment is never discarded in favour of an older copy). Also decides: _proc_payload_set is called only from _update_payload_set and only where `None in <set>` is known false (or on the constant empty set), so a set with a gap is never handed to the decoder; and no function on the schedule codec path is memoised while returning a mutable container (decoded schedules are edited in place by their consumers). Anchors are found through the module scope of the codec functions (closures and same-module helpers), formats by constant folding.",
         "note": BASE_NOTE,
     },
     {
@@ -162,32 +162,32 @@ CHECKS = [
     },
     {
         "id": "C14",
-        "technique": "static analysis: path rule over the CFG of the value reader, constant/operator rules on the expiry predicate, input-dependence of the lifetime function, store-key rule; key-path extraction of the message store; selection-by-recency rule; finite abstract evaluation (decision table) of the expiry update chain; accessor discipline for payload reads",
+        "technique": "static analysis: path rule over the CFG of the value reader, constant/operator rules on the expiry predicate, input-dependence of the lifetime function, store-key rule; key-path extraction of the message store; selection-by-recency rule; finite abstract evaluation (decision table) of the expiry update chain; accessor discipline for payload reads; loop-abandonment rule for the expiry clean-up",
         "text": "Decides that every path on which msg._expired was true ends in `return None` in the value reader; that expiry is "
         ">= HAS_EXPIRED with HAS_EXPIRED = 2.0, a 3 s grace subtracted from the age, the latch tested before any recomputation and "
         "CANT_EXPIRE -> False; that pkt_lifespan returns a timedelta on every path from verb/code/array-ness/the 3220 id only (no clock) and "
         "the schema's lifespan rows fold to timedelta|False|None; and that the message store is unconditional and keyed by the message's own "
-        "code/verb/context. Does not decide freshness under interleaving as a trace property. Also decides: the message handed to the value reader is always a keyed lookup or max() over all candidates (Message orders by dtm); every non-RQ 1F09 takes its lifetime from the payload countdown in every row of the decision table of Message._expired's update chain; the per-context store is keyed [code][verb][_ctx] on every store path; and no entity property reads <Message>.payload (or an attribute caching a payload) without an _expired test (213 properties). R2 also: from the decision table of Message._expired (with effects), a 'not expired' verdict is never served from the memoised fraction except for 'cannot expire'.",
+        "code/verb/context. Does not decide freshness under interleaving as a trace property. Also decides: the message handed to the value reader is always a keyed lookup or max() over all candidates (Message orders by dtm); every non-RQ 1F09 takes its lifetime from the payload countdown in every row of the decision table of Message._expired's update chain; the per-context store is keyed [code][verb][_ctx] on every store path; and no entity property reads <Message>.payload (or an attribute caching a payload) without an _expired test (213 properties). R2 also: from the decision table of Message._expired (with effects), a 'not expired' verdict is never served from the memoised fraction except for 'cannot expire'. Also decides: whether and where a new message is filed never depends on what the store already holds or on a timestamp comparison (a test over the DB is accepted only when both arms file the message in the same stores); and in _delete_msg every deletion inside the loop over the entities is KeyError-safe within its own iteration (suppress/try inside the loop, a membership test, or pop with default) and both stores are cleaned - one entity that does not hold the message cannot end the clean-up for the rest.",
         "note": BASE_NOTE,
     },
     {
         "id": "C12",
-        "technique": "static analysis: table exhaustiveness of the probe set (constant folding of role maps and registered payloads), handler coverage by guard dominance, must-write rule, monotone-container rule, restricted exception closure; post-dominance rule after class promotion; reaching-definition rule for the discovery decision",
+        "technique": "static analysis: table exhaustiveness of the probe set (constant folding of role maps and registered payloads), handler coverage by guard dominance, must-write rule, monotone-container rule, restricted exception closure; post-dominance rule after class promotion; reaching-definition rule for the discovery decision; snapshot-across-await rule for the discovery call",
         "text": "Narrow claim - reconstruction for every configuration under every loss pattern is behavioural and not decided. Decides that every "
         "role the controller can report (all heat-zone classes, sensor role, appliance control, both DHW valves, DHW sensor, each zone's own "
         "actuator role) is probed by a registered discovery command; that each probed code has a handler branch that attaches what the reply "
         "names; that a failed send re-arms the next-due time, is fenced, and cannot end the poller; and that the topology containers only "
-        "grow. The explicit LookupError in _get_msg_by_hdr is listed as undecided. Also decides: every zone promotion (`self.__class__ = ...`) is followed on all paths by a rebuild of the probe table, and in Gateway.start the restoring assignment of config.disable_discovery dominates the test that guards initiate_discovery().",
+        "grow. The explicit LookupError in _get_msg_by_hdr is listed as undecided. Also decides: every zone promotion (`self.__class__ = ...`) is followed on all paths by a rebuild of the probe table, and in Gateway.start the restoring assignment of config.disable_discovery dominates the test that guards initiate_discovery(). Also decides: the arguments of the call that starts the discovery pollers are read at the call, or are aliases of live containers - not a local bound, before an await, to a property that builds a new list (systems created while start() was suspended would never be polled).",
         "note": BASE_NOTE,
     },
     {
         "id": "C15",
-        "technique": "static analysis: guarded-single-writer rule for topology fields, produced-keys ⊆ accepted-keys by structural extraction of the voluptuous schemas, regex-language vs index-range agreement (automata); acceptance-order and clearing rules for topology writes; regex-language inclusion for unconstrained roles",
+        "technique": "static analysis: guarded-single-writer rule for topology fields, produced-keys ⊆ accepted-keys by structural extraction of the voluptuous schemas, regex-language vs index-range agreement (automata); acceptance-order and clearing rules for topology writes; regex-language inclusion for unconstrained roles; truth-table strength of the parent-change and controller-change guards",
         "text": "Decides that the parent/controller/role fields of the topology are only written in constructors, in Child.set_parent after the "
         "parent- and controller-change checks, in Parent._add_child under an 'already set and different => SystemSchemaInconsistent' test, or "
         "from get_device(..., parent=self); that the literal keys produced by the schema properties are accepted by the PREVENT_EXTRA "
         "validators; that the zone-index domain allowed by max_zones is within the validator's idx regex and Length bound; and the duplicate "
-        "guards. Does not decide that a re-loaded schema reproduces the same objects (execution). Also decides: set_parent records _parent/_child_id only after parent._add_child() accepted the child; role fields are never cleared outside constructors; and a role that _add_child admits without any type test on the child is reported under a schema key whose validator accepts every well-formed device id (else finding F30).",
+        "guards. Does not decide that a re-loaded schema reproduces the same objects (execution). Also decides: set_parent records _parent/_child_id only after parent._add_child() accepted the child; role fields are never cleared outside constructors; and a role that _add_child admits without any type test on the child is reported under a schema key whose validator accepts every well-formed device id (else finding F30). Also decides: Child._get_parent raises SystemSchemaInconsistent for *every* child that already has a different parent (the guard's test is implied by `self._parent and self._parent != parent` - no further condition may excuse it), and set_parent's controller-change check is logically `self.ctl and self.ctl is not <new>` wherever it is written (inline or in a private method whose call dominates the writes).",
         "note": BASE_NOTE,
     },
     {
